@@ -22,12 +22,12 @@ class SimBus:
         #                          the listen iterator raises once
         self.waiters = []        # asyncio futures to wake on publish
 
-    def publish(self, raw, origin=None):
+    def publish(self, raw, origin=None, method=None):
         w = self.world
         i = len(self.log)
         self.log.append((w.now(), origin, raw))
         w.rec.add('bus_pub', i=i, origin=origin,
-                  method=_method_of(raw))
+                  method=method or _method_of(raw))
         for h in self.hosts:
             h._on_publish(i)
         for f in self.waiters:
@@ -58,11 +58,12 @@ class SimBus:
 
 
 def _method_of(raw):
-    try:
-        d = pickle.loads(raw) if isinstance(raw, bytes) else raw
-        return d.get('method') if isinstance(d, dict) else None
-    except Exception:
-        return None
+    """For the log only; never unpickles foreign bytes (hostile pickles can
+    take arbitrarily long)."""
+    if isinstance(raw, dict):
+        m = raw.get('method')
+        return m if isinstance(m, str) else None
+    return None
 
 
 class _HostEnd:
@@ -113,7 +114,8 @@ class SimPubSubManager(_HostEnd, socketio.PubSubManager):
         self._bus_init(bus, name, lag)
 
     def _publish(self, data):
-        self.bus.publish(pickle.dumps(data), origin=self.bus_name)
+        self.bus.publish(pickle.dumps(data), origin=self.bus_name,
+                         method=data.get('method'))
 
     def _listen(self):
         k = self.bus.world.kernel
@@ -142,7 +144,8 @@ class AsyncSimPubSubManager(_HostEnd, AsyncPubSubManager):
         self._bus_init(bus, name, lag)
 
     async def _publish(self, data):
-        self.bus.publish(pickle.dumps(data), origin=self.bus_name)
+        self.bus.publish(pickle.dumps(data), origin=self.bus_name,
+                         method=data.get('method'))
 
     async def _listen(self):
         loop = self.bus.world.loop
